@@ -83,6 +83,30 @@ theorem C01_get_components (U : Universe) (hints : List (List Ent)) (ops : List 
   have h := tabInv_run (tabInv_init U hints) ops
   exact Dict.mem_values_iff _ (h.rowKeys e) c
 
+/-- `get(object)` — the query by the root of every hierarchy — lists precisely the attached
+components, one pair per (entity, component). -/
+theorem C01_get_object (U : Universe) (hints : List (List Ent)) (ops : List Op) (e : Ent) (c : Obj) :
+    let s := run U { sweepHints := hints } ops
+    (e, c) ∈ getAll s ↔ ∃ t, Dict.get? (row s e) t = some c := by
+  have h := tabInv_run (tabInv_init U hints) ops
+  intro s
+  simp only [getAll, List.mem_flatMap, List.mem_map, Prod.mk.injEq, Prod.exists]
+  constructor
+  · rintro ⟨e', r, her, t, c', htc, rfl, rfl⟩
+    have hr : Dict.get? s.ents e' = some r := (Dict.mem_iff_get? _ h.entKeys e' r).mp her
+    have hrow : row s e' = r := by simp [row, hr]
+    refine ⟨t, ?_⟩
+    rw [hrow]
+    have hk : (Dict.keys r).Nodup := by have := h.rowKeys e'; rwa [hrow] at this
+    exact (Dict.mem_iff_get? _ hk t c').mp htc
+  · rintro ⟨t, ht⟩
+    cases hr : Dict.get? s.ents e with
+    | none => simp [row, hr, Dict.get?] at ht
+    | some r =>
+      have hrow : row s e = r := by simp [row, hr]
+      rw [hrow] at ht
+      exact ⟨e, r, Dict.get?_some_mem hr, t, c, Dict.get?_some_mem ht, rfl, rfl⟩
+
 /-- `entities` / `entity_exists` name exactly the entities that own at least one component and
 are not awaiting deletion; `entities` lists each once. -/
 theorem C01_entities (U : Universe) (hints : List (List Ent)) (ops : List Op) (e : Ent) :
